@@ -69,8 +69,10 @@ package cron
 // The add hook registers exactly the rules that carry a schedule (not while loading into a persistent cron);
 // the remove hook unregisters them.
 //@ func AddHooks$1
+//@   assume-entry lastSched == ""
 //@   ensures[C15.addhook_registers] result == nil && lastSched != "" && !(lastPersistent && loading) ==> cronScheduledId == id
 //@ func AddHooks$2
+//@   assume-entry lastSched == ""
 //@   ensures[C15.remhook_unregisters] result == nil && lastSched != "" ==> cronRemId == id
 //@ func AddHooks
 //@   ensures[C15.addhooks_always_installs] result == nil
